@@ -70,11 +70,16 @@ Proof. exact mul_inv. Qed.
    whose operations all sit on qudits of the circuit *)
 Theorem C05_history_inv_full : forall ks c, Inv c -> renumbers_in_range ks c -> Inv (fold_left do_callF ks c).
 Proof. exact history_inv_full. Qed.
-(* to do: discharge `renumbers_in_range` from a static well-formedness of the call arguments
-   (blocks whose inner operations fit their location, recursively) *)
+(* without unfold_all (whose unchecked raw appends can bring in out-of-range inner operations of an
+   ill-formed block) no side condition is left: every history of the other 21 calls from the empty
+   circuit, with ANY arguments, keeps the invariant and every operation on qudits of the circuit *)
+Theorem C05_history_inv_range : forall ks n rs, Forall no_unfold_all ks ->
+  Inv (fold_left do_callF ks (mkC n rs [])) /\ in_range (fold_left do_callF ks (mkC n rs [])).
+Proof. exact history_inv_range_empty. Qed.
+(* to do: include unfold_all by a static well-formedness of block arguments (inner operations fit
+   the block's location, recursively) *)
 Definition C05_history_inv_unconditional_full : Prop :=
-  forall ks n rs, (forall k, In k ks -> match k with FRenumber _ => False | _ => True end)
-                  -> Inv (fold_left do_callF ks (mkC n rs [])).
+  forall ks n rs, Inv (fold_left do_callF ks (mkC n rs [])).
 
 (* iteration yields each qudit's operations in timeline order *)
 Theorem C05_iteration_compatible : forall cs q,
